@@ -479,6 +479,31 @@ mut('C06', 'jsondumper', "        return u'r:%s %s' % (ref.name, ref.value)", " 
 mut('C06', 'jsondumper', "    return 't:%s %s' % (date_time.isoformat(), tz_name)", "    return 't:%s' % date_time.isoformat()", 'OK', name='zone name omitted (still well-formed)')
 mut('C08', 'jsondumper', "    return u'x:%s:%s' % (xstr_value.encoding, xstr_value.data_to_string())", "    return u'x:%s %s' % (xstr_value.encoding, xstr_value.data_to_string())", name='xstr with blank separator')
 
+# ---- C03 -----------------------------------------------------------------------------
+mut('C03', 'zincparser', "hs_digits = Regex(r'[0-9_]+')", "hs_digits = Regex(r'[0-9]+')", name='digits lose _ separators')
+mut('C03', 'zincparser', "hs_nl = Combine(And([Optional(Literal('\\r')), Literal('\\n')]))", "hs_nl = Combine(And([Literal('\\n')]))", name='CRLF no longer accepted')
+mut('C03', 'zincparser', "            Suppress(Optional(hs_valueSep)), \\\n", "", name='trailing comma in lists rejected')
+mut('C03', 'zincparser', "hs_dateSep = CaselessLiteral('T')", "hs_dateSep = Literal('T')", name='lower-case t rejected')
+mut('C03', 'zincparser', "    CaselessLiteral('z'),", "    Literal('Z'),", name='lower-case z rejected')
+mut('C03', 'zincparser', "hs_valueSep = Regex(r' *, *').setName('valueSep')", "hs_valueSep = Regex(r', *').setName('valueSep')", name='blank before comma rejected')
+mut('C03', 'zincparser', "        Literal('NaN')\n    ]).setParseAction(lambda toks: [float(toks[0])])", "        Literal('Nan')\n    ]).setParseAction(lambda toks: [float(toks[0])])", name='NaN misspelt in reader')
+mut('C03', 'zincparser', "    lambda toks: [toks[0] == 'T'])", "    lambda toks: [toks[0] == 'F'])", name='T and F exchanged')
+mut('C03', 'zincparser', "    lambda toks: [''.join([t.replace('_', '') for t in toks[0]])])", "    lambda toks: [toks[0]])", name='digits keep _ (float fails)')
+mut('C03', 'zincparser', "                elif esc_c == 't':\n                    out += '\\t'", "                elif esc_c == 't':\n                    out += ' '", name='\\t decodes to blank')
+mut('C03', 'zincparser', "            if esc_c in ('u', 'U'):", "            if esc_c in ('U',):", name='\\u no longer decoded')
+mut('C03', 'zincparser', "hs_exp = Combine(And([\n    CaselessLiteral('e'),", "hs_exp = Combine(And([\n    Literal('e'),", name='upper-case E exponent rejected')
+mut('C03', 'zincparser', "    Optional(hs_tzHHMMOffset)\n])).setParseAction(lambda toks: [iso8601.parse_date(toks[0].upper())])", "    hs_tzHHMMOffset\n])).setParseAction(lambda toks: [iso8601.parse_date(toks[0].upper())])", 'OK', name='offset mandatory (spec requires it)')
+mut('C03', 'zincparser', "    Optional(And([\n        Suppress(Literal(' ')),\n        hs_timeZoneName\n    ]))\n]).setParseAction(_parse_datetime)", "    And([\n        Suppress(Literal(' ')),\n        hs_timeZoneName\n    ])\n]).setParseAction(_parse_datetime)", name='zone name mandatory')
+mut('C03', 'zincparser', "    lambda ver: Or([Empty().copy().setParseAction(lambda toks: [None]), \\\n                    hs_scalar[ver]]).setName('cell'))", "    lambda ver: Or([hs_scalar[ver]]).setName('cell'))", name='empty cells rejected')
+mut('C03', 'parser', "        if grid_str:\n            grid_str += '\\n'\n", "", name='revert fix: final newline')
+mut('C03', 'parser', "GRID_SEP = re.compile(r'(?<=\\n)(?:\\r?\\n)+')", "GRID_SEP = re.compile(r'(?<=\\n)\\n+')", name='revert fix: CRLF separator')
+mut('C03', 'parser', "        grid_data = [g for g in GRID_SEP.split(grid_str) if g]", "        grid_data = GRID_SEP.split(grid_str)", name='revert fix: empty input')
+mut('C03', 'parser', "        if grids:\n            return grids[0]", "        if grids:\n            return grids[-1]", name='single returns the last grid')
+mut('C03', 'zincparser', "        (whole, frac) = time_str.split('.', 1)\n        time_str = whole + '.' + frac[:6]\n", "", name='revert fix: time fraction digits')
+mut('C03', 'zincparser', "    Regex(u'[%_/$\\u0080-\\U0010ffff]')", "    Regex(u'[%_/$\\u0080-\\ufffe]')", name='revert fix: unit chars')
+mut('C03', 'zincparser', "VERSION_RE = re.compile(r'^ver:\"(([^\"\\\\]|\\\\[\\\\\"bfnrt$])+)\"')", "VERSION_RE = re.compile(r'^ver:\"([0-9]\\.[0-9])\"')", name='version sniffer only accepts d.d')
+mut('C03', 'zincparser', "hs_scalar_3_0 <<= Or([hs_ref, hs_xstr, hs_str, hs_uri, hs_dateTime,\n                      hs_date, hs_time, hs_coord, hs_number, hs_na, hs_null,", "hs_scalar_3_0 <<= Or([hs_ref, hs_xstr, hs_str, hs_uri, hs_dateTime,\n                      hs_date, hs_time, hs_coord, hs_null, hs_number, hs_na,", 'OK', name='reordering under longest-match Or (harmless)')
+
 
 def run(selected):
     base_cache = {}
